@@ -1206,9 +1206,10 @@ class _iterinfo(object):
                     # days from last year's last week number in
                     # this year.
                     if -1 not in rr._byweekno:
-                        lyearweekday = datetime.date(year-1, 1, 1).weekday()
-                        lno1wkst = (7-lyearweekday+rr._wkst) % 7
                         lyearlen = 365+calendar.isleap(year-1)
+                        # date(year-1, 1, 1) does not exist for year 1
+                        lyearweekday = (self.yearweekday-lyearlen) % 7
+                        lno1wkst = (7-lyearweekday+rr._wkst) % 7
                         if lno1wkst >= 4:
                             lno1wkst = 0
                             lnumweeks = 52+(lyearlen +
